@@ -3,7 +3,7 @@ import sys, os
 sys.path.insert(0, os.path.dirname(os.path.dirname(os.path.abspath(__file__))))
 import z3
 from pyvc import xreal as xr
-from pyvc.numexec import NumExec, Num, Obj, Unsupported
+from pyvc.numexec import NumExec, Num, Obj, Unsupported, ANALYSIS
 from pyvc.solve import Obl, static, undecided
 from pyvc.runner import main
 from contracts import norms as C
@@ -67,7 +67,7 @@ def ieee_commutativity(run):
             o.fpvars = {"a": a, "b": b}
             o.timeout_s = 6          # best effort: a body that is not syntactically symmetric and multiplies needs a bit-blasted multiplier
             out.append(o)
-        except Unsupported as ex_:
+        except ANALYSIS as ex_:
             out.append(undecided(f"{fq}/ieee.subset", f"outside the floating-point evaluator: {ex_}", fn=fq, meta={"replay": {"module": "contracts.norms", "func": "replay", "kwargs": {"clause": "sampled", "norm": norm}, "vars": {}}, "best_effort": True}))
     return out
 
@@ -136,7 +136,7 @@ def build(run):
                 one = xr.const(1.0)
                 Td, _ = compute(run, t, ax, xr.sub(one, a), xr.sub(one, b))
                 run.add(Obl(f"{fq}/law.dual[{t}]", pre2, xr.same(Tab, xr.sub(one, Td)), fn=fq, meta=rp("dual", "ab")))
-        except Unsupported as ex_:
+        except ANALYSIS as ex_:
             run.add(undecided(f"{fq}/subset", f"outside the verified subset: {ex_}", fn=fq,
                               meta={"replay": {"module": "contracts.norms", "func": "replay", "kwargs": {"clause": "all", "norm": norm}, "vars": {}}}))
     run.add(ieee_commutativity(run))
